@@ -7,6 +7,17 @@ NOTES = ("All checks: ./check <ID> quick|thorough; exit 0 held / 1 VIOLATION / 2
          "every run. known_findings.json lists open findings and fixed: records; replays/<ID>/ holds committed regression cases.")
 NOT_APPLICABLE = {}
 CHECKS = {
+    "C13": {
+        "technique": "property-based testing against a reference model: Hypothesis-generated pairs of logical models (renamed / dropped / added / nested fields; dataclass, attrs, NamedTuple, TypedDict, pydantic, plain __init__ destinations; generic nested pairs), conversion recipes from every public provider with unambiguous predicates, impl_converter stubs with 0-n extra parameters, all entry points; oracle = independent linking / coercion reference (class Ref) constructing the destination field-wise, plus source snapshot, signature / name / doc preservation and call-plan checks",
+        "text": "Exploration over generated converter programs and source values; ~4.5 % of the cases are documented refusals that must raise ProviderNotFoundError.",
+        "note": "Trusted: the reference linking model written from conversion/tutorial.rst and extended-usage.rst. Not asserted: TypedDict source with an absent linked NotRequired key, source predicates matching both a field and a parameter, unsatisfiable link_function on optional fields. One open known finding (class predicate vs NotRequired[T] field).",
+    },
+    "C14": {
+        "technique": "bounded exhaustive enumeration + property-based sampling against a documented relation: all ordered pairs of a pool of 77 field types x up to 6 link-policy configurations (exhaustive), unlinked destination fields enumerated at top level and nested, nested types sampled by Hypothesis; oracle = independently written three-valued coercible(S, D) relation AND, independent of it, structural conformance of converted canonical values to the destination type",
+        "text": "Exploration with an exhaustive pair sweep: a created converter must be justified by the documented coercion rules and must never place a value that does not conform to the destination type; creation may fail only with ProviderNotFoundError.",
+        "note": "Trusted: the coercible relation transcribed from conversion/tutorial.rst 'Type coercion' and the structural conformance checker. Refusing a documented-coercible pair is counted, not reported (the property is one-directional).",
+        "engine": "enumeration+hypothesis",
+    },
     "C16": {
         "technique": "property-based testing with an independent substitution oracle: Hypothesis generates class hierarchies (depth <= 4, arity <= 3, partially bound / re-ordered / renamed type variables, diamonds, overriding annotations, bound / constrained / variadic variables) as pure data, builds them in several model kinds by exec of generated source, computes the expected field types with its own 30-line substitution and probes loads / dumps with conforming data and data that fits only another substitution",
         "text": "Exploration: conforming data must load and round-trip, data fitting only a different pool member must fail with LoadError at that field's trail, bare use must follow the documented implicit parameters.",
